@@ -123,6 +123,17 @@ def conv_case(ctx, rng, lines, pend):
         G = hlp.get_g_factor(gc)
         if tuple(gc.shape) != tuple(gout.shape) or not torch.equal(gc, gout):
             ctx.fail('get_g_factor changed the tensor it was given', case, 'input-mutated')
+        # the helpers are functions of their argument (and the module's geometry): a forward at ANOTHER resolution in
+        # between (multi-scale inputs, a convolution shared by two branches, forward-forward-backward-backward) changes
+        # neither factor of the first one (C15-mutU normalised G by the patch grid of the last forward)
+        x2 = torch.randint(-3, 4, (N, cin, H + rng.randrange(1, 4), W + rng.randrange(0, 4))).double()
+        A_other = hlp.get_a_factor(x2)
+        G_again = hlp.get_g_factor(relayout(gout))
+        A_again = hlp.get_a_factor(relayout(x.detach()))
+        if G_again.shape != G.shape or not torch.equal(G_again, G) or A_again.shape != A.shape or not torch.equal(A_again, A):
+            ctx.fail(f'after a get_a_factor call at another resolution {tuple(x2.shape[2:])} the factors of the same input / output '
+                     'gradient differ from the first time: the helper keeps state between calls', case, 'helper-history')
+        del A_other
     except Exception as e:  # noqa: BLE001
         ctx.fail(f'helper raised {type(e).__name__}: {e}', case, 'raised')
         return
